@@ -143,7 +143,8 @@ RULES = {
     "C14": "case = (config row, constructor, word data, up to 40 / 400 models, position j + replacement model, position j + bit mask); "
            "oracle 1: symbol i == model_i(chunk_i) with chunk_i and the out-of-data index from an independent bit-stack model of the "
            "chunking; oracle 2: replacing model j / flipping the mask inside chunk j (bit provenance from the chunk model) changes at most "
-           "symbol j and never the out-of-data index; " + CHAIN_GRID + "; non-trivial = >=2 symbols decoded",
+           "symbol j and never the out-of-data index; oracle 3: a coder over a seekable compressed backend (Cursor) is jumped back "
+           "(Pos / Seek) up to 4 times to snapshots taken before earlier symbols and must decode what the straight pass decoded there; " + CHAIN_GRID + "; non-trivial = >=2 symbols decoded",
     "C15": "case = (weight type u8|u32|u64|f32|f64, n in 1..40 (quick) / 1..600 (thorough), style {ties and zeros, powers of two, "
            "Fibonacci-like, nearly equal, one dominant, random}, float tables scaled exactly by 2^k (k down to -1000) or perturbed by one "
            "epsilon); checks: prefix-free, Kraft equality, codewords bit-identical to a textbook construction with the documented tie "
@@ -228,7 +229,7 @@ LEVEL_TEXT = {
     "C11": "property-based search with a state-steered generator over sealed messages followed by adversarial suffixes",
     "C12": "property-based search checking the analytic size bound at every prefix of generated messages",
     "C13": "stateful property-based decode/re-encode round-trip search over chain-coder scripts with precision changes and all three re-import ways",
-    "C14": "differential (independent chunk model) and metamorphic (model replacement, bit flips) property-based search",
+    "C14": "differential (independent chunk model) and metamorphic (model replacement, bit flips, seek-back re-decoding) property-based search",
     "C15": "property-based search over weight vectors with a reference construction, exhaustive-optimum oracle for small alphabets and validity predicates",
     "C16": "stateful model-based property-based search over bit-coder scripts against a Vec<bool> model and the documented word packing",
     "C17": "stateful model-based property-based search over backend op scripts against a logical-cursor reference model",
